@@ -17,8 +17,14 @@ use libc::{
 use std::net::{TcpListener, TcpStream};
 use std::os::unix::io::{AsRawFd, RawFd};
 use std::sync::atomic::{AtomicBool, Ordering};
-use std::sync::Arc;
+use std::sync::{Arc, Mutex};
 use std::{io, ptr};
+
+/// Records of connections that workers have closed, handed back to the event loop for freeing.
+type Graveyard = Arc<Mutex<Vec<u64>>>;
+
+/// The event loop wakes up at least this often (ms) to free the records of closed connections.
+const RECLAIM_INTERVAL_MS: i32 = 1000;
 
 #[repr(align(64))]
 struct Handle {
@@ -28,6 +34,7 @@ struct Handle {
     fd: RawFd,
     epfd: RawFd,
     closed: AtomicBool,
+    graveyard: Graveyard,
 }
 
 struct EpollJob {
@@ -67,6 +74,11 @@ impl Task for EpollJob {
             #[cfg(khttp_verif)]
             crate::verif::emit(crate::verif::Event::EpClosedStore(self.handle_ptr));
             handle.closed.store(true, Ordering::Release);
+            // hand the record back: the connection is deregistered, so no later epoll_wait reports it, and the loop
+            // frees what it finds here only after it has looked at every event of its current batch.
+            // (`handle` must not be touched after the push)
+            let graveyard = Arc::clone(&handle.graveyard);
+            graveyard.lock().unwrap().push(self.handle_ptr);
         }
     }
 }
@@ -81,10 +93,10 @@ impl Server {
 
         let max_events = self.epoll_queue_max_events as i32;
         let mut events = vec![epoll_event { events: 0, u64: 0 }; max_events as usize];
-        let mut stale_ptrs = Vec::with_capacity(self.epoll_queue_max_events.max(512));
+        let graveyard: Graveyard = Arc::new(Mutex::new(Vec::new()));
 
-        loop {
-            let n = unsafe { epoll_wait(epfd, events.as_mut_ptr(), max_events, -1) };
+        'serve: loop {
+            let n = unsafe { epoll_wait(epfd, events.as_mut_ptr(), max_events, RECLAIM_INTERVAL_MS) };
             if n == -1 {
                 match io::Error::last_os_error() {
                     e if e.kind() == io::ErrorKind::Interrupted => continue,
@@ -102,7 +114,7 @@ impl Server {
                             stream = match (hook)(Ok((stream, _peer))) {
                                 ConnectionSetupAction::Proceed(s) => s,
                                 ConnectionSetupAction::Drop => continue,
-                                ConnectionSetupAction::StopAccepting => return Ok(()),
+                                ConnectionSetupAction::StopAccepting => break 'serve,
                             }
                         }
 
@@ -117,6 +129,7 @@ impl Server {
                             epfd,
                             fd,
                             closed: AtomicBool::new(false),
+                            graveyard: Arc::clone(&graveyard),
                         });
                         let handle_ptr = Box::into_raw(handle) as u64;
                         #[cfg(khttp_verif)]
@@ -148,9 +161,9 @@ impl Server {
                     crate::verif::emit(crate::verif::Event::EpEvent(token));
                     let handle = unsafe { &*handle_ptr };
                     if handle.closed.load(Ordering::Acquire) {
+                        // a stale event: its worker has closed the connection and hands the record back itself
                         #[cfg(khttp_verif)]
                         crate::verif::emit(crate::verif::Event::EpClosedSeen(token));
-                        stale_ptrs.push(handle_ptr);
                     } else if handle
                         .in_flight
                         .compare_exchange(false, true, Ordering::Acquire, Ordering::Relaxed)
@@ -162,17 +175,26 @@ impl Server {
                     }
                 }
             }
-            if !stale_ptrs.is_empty() {
-                for ptr in &stale_ptrs {
-                    #[cfg(khttp_verif)]
-                    crate::verif::emit(crate::verif::Event::EpFree(*ptr as u64));
-                    unsafe { drop(Box::from_raw(*ptr)) };
-                }
-                stale_ptrs.clear();
+            // every event of this batch has been looked at: free the records handed back so far
+            let dead = std::mem::take(&mut *graveyard.lock().unwrap());
+            for ptr in dead {
+                #[cfg(khttp_verif)]
+                crate::verif::emit(crate::verif::Event::EpFree(ptr));
+                unsafe { drop(Box::from_raw(ptr as *mut Handle)) };
             }
             #[cfg(khttp_verif)]
             crate::verif::emit(crate::verif::Event::EpBatchEnd);
         }
+
+        // StopAccepting: let the workers finish what they have, then free the records they handed back
+        drop(worker_pool);
+        let dead = std::mem::take(&mut *graveyard.lock().unwrap());
+        for ptr in dead {
+            #[cfg(khttp_verif)]
+            crate::verif::emit(crate::verif::Event::EpFree(ptr));
+            unsafe { drop(Box::from_raw(ptr as *mut Handle)) };
+        }
+        Ok(())
     }
 
     fn create_listener(&self, listener_token: u64) -> io::Result<(TcpListener, i32)> {
